@@ -377,6 +377,23 @@ fn rel_block(first: usize, len: usize, seed: u64) -> Result<(), String> {
     Ok(())
 }
 
+/// table facts used by C17_isolated_pulse_exact(_Q) and by the assert of the routine: every response
+/// window of the production grids is negative (wire: samples 0..13; pad: samples 3..17)
+fn rel_table() -> Result<(), String> {
+    let w = verif::wire_response();
+    let p = verif::pad_response();
+    if w.len() < 13 || !w[..13].iter().all(|&x| x < 0.0) {
+        return Err("wire response: first 13 samples not all negative".into());
+    }
+    if p.len() < 17 || !p[3..17].iter().all(|&x| x < 0.0) {
+        return Err("pad response: samples 3..17 not all negative".into());
+    }
+    if !w.iter().chain(p.iter()).all(|x| x.is_finite()) {
+        return Err("response not finite".into());
+    }
+    Ok(())
+}
+
 fn verdict(r: Result<(), String>) -> String {
     match r {
         Ok(()) => "holds".to_string(),
@@ -520,7 +537,7 @@ pub fn run(tier: &str, seed: u64, s: &mut Sink) {
     let mul = if thorough { 10 } else { 1 };
 
     // --- differential cases: structured waveforms on the two production responses
-    for _ in 0..400 * mul {
+    for _ in 0..700 * mul {
         for (kind, resp, own, other) in [("w", &wire, WIRE_GRID, PAD_GRID), ("p", &pad, PAD_GRID, WIRE_GRID)] {
             let n = length(&mut r);
             let (sig, label) = pulses(&mut r, resp, n);
@@ -579,6 +596,7 @@ pub fn run(tier: &str, seed: u64, s: &mut Sink) {
     }
 
     // --- relations on the implementation alone
+    emit_rel(s, "rel17table".to_string(), "rel-table-facts");
     for _ in 0..150 * mul {
         for kind in ["w", "p"] {
             let (resp, _) = resp_of(kind);
@@ -663,6 +681,7 @@ pub fn observe_line(line: &str) -> Option<String> {
             let (Some(w), Some(n), Some(k), Some(a)) = (p(t[1]), p(t[2]), p(t[3]), parse_floats(t[4])) else { return bad() };
             Some(verdict(rel_pulse(w, n, k, a[0])))
         }
+        "rel17table" if t.len() == 1 => Some(verdict(rel_table())),
         "rel17block" if t.len() == 4 => {
             let (Ok(f), Ok(l), Ok(sd)) = (t[1].parse::<usize>(), t[2].parse::<usize>(), t[3].parse::<u64>()) else {
                 return bad();
